@@ -149,7 +149,7 @@ CHECKS = {"laws": check_laws}
 
 
 def base_strategy():
-    seg = st.sampled_from(["a", "b.txt", "c.tar.gz", "photo.jpg.jpg", "v.1.1", "a.%20b", "q.100%25", "f.%D1%82%D1%85%D1%82", "my.txtfile.txt", "x.x.x", "", "%2F", "a%2Fb", "%25", "e%20f", "é", ".hidden", "x.", "..y", "a..b", "%C3%A9.%E2%82%AC", "+", "a:b", "@", "a;b=c"])
+    seg = st.sampled_from(["a", "b.txt", "c.tar.gz", "photo.jpg.jpg", "v.1.1", "a.%20b", "q.100%25", "f.%D1%82%D1%85%D1%82", "my.txtfile.txt", "x.x.x", "", "%2F", "a%2Fb", "%25", "e%20f", "é", ".hidden", "x.", "..y", "a..b", "%C3%A9.%E2%82%AC", "+", "a:b", "@", "a;b=c", "report.txt;v=1", "index.jsp;jsessionid=1A2B.node1", "file;v=1.2", "a.b;c.d;e", ";.x", "x.y,z", "x.y=z", "n.e!t", "a.b@c", "a.b:c.d"])
     path = st.lists(seg, max_size=4)
     pre = st.sampled_from(["http://h.example", "http://u@h.example:81", "//h.example", "", "", "mailto:", "file://", "x-y:"])
 
@@ -169,7 +169,7 @@ def base_strategy():
 
 def generated(ctx, backend, n):
     txt = gen.text(surrogates=False, max_tokens=4, dots=True)
-    seg = st.one_of(txt.map(gen._strip("/")), st.sampled_from(["x", "y.z", "a b", "%41", "é", "..", ".", "", "a%2Fb", "\u0664\u0662", "\uff14\uff12", "\xb2", "42", "\u0967\u0968.txt"]))
+    seg = st.one_of(txt.map(gen._strip("/")), st.sampled_from(["x", "y.z", "a b", "%41", "é", "..", ".", "", "a%2Fb", "\u0664\u0662", "\uff14\uff12", "\xb2", "42", "\u0967\u0968.txt", "r.txt;v=1", "f;v=1.2", "a.b:c", "a.b,c=d"]))
     multi = st.one_of(seg, st.lists(seg, min_size=1, max_size=3).map("/".join))
     ctx.given("laws", {"base": base_strategy(), "s": multi, "a": multi, "b": multi, "n": seg, "x": st.one_of(st.just(""), seg.map(lambda s: s.replace(".", "")), st.sampled_from(["md", "tar.gz", "x y"])), "order": st.integers(0, 3), "enc": st.booleans()},
               max_examples=n, fixed={"backend": backend})
